@@ -8,16 +8,22 @@ import sx
 
 
 class Loaded:
-    __slots__ = ('raw', 'status', 'node', 'diags', 'text1', 'cycles', 'ftab', 'err', 'stage')
+    __slots__ = ('raw', 'status', 'node', 'diags', 'text1', 'cycles', 'ftab', 'err', 'stage', 'a2ml')
 
     def __init__(self, line):
         self.raw = line
         self.node = self.diags = self.text1 = self.cycles = self.err = self.stage = None
         self.ftab = []
+        self.a2ml = [[], []]
         if line is None or line.startswith('DIED'):
             self.status = 'DIED'
             return
         r = sx.dec(line)
+        # the last element is the A2ML oracle ( table builtin ) - see load.rs a2mltable
+        if len(r) >= 2 and isinstance(r[-1], list) and len(r[-1]) == 2 and all(isinstance(x, list) for x in r[-1]) and \
+                all(isinstance(e, list) and len(e) == 2 and isinstance(e[0], (bytes, bytearray)) for e in r[-1][0]):
+            self.a2ml = r[-1]
+            r = r[:-1]
         self.status = r[0].decode()
         if self.status == 'OK':
             self.node, self.diags, self.text1, self.cycles, self.ftab = r[1], r[2], r[3], r[4], r[5]
@@ -52,7 +58,7 @@ def run_impl(cases, binary=None, timeout=3000):
 def run_model(cases, impl_results, model_exe, timeout=3000):
     lines = []
     for (t, s, sp, cyc), r in zip(cases, impl_results):
-        lines.append(sx.enc([t, 1 if s else 0, [sp] if sp else [], 0, r.ftab if r.ftab is not None else []]))
+        lines.append(sx.enc([t, 1 if s else 0, [sp] if sp else [], 0, r.ftab if r.ftab is not None else [], r.a2ml[0], r.a2ml[1]]))
     out = fw.run_sharded([model_exe], lines, timeout=timeout)
     return out, lines
 
